@@ -185,7 +185,7 @@ def scenario(case):
     if case.get("mtime") is not None:
         # entries last modified long ago (the LIST fallback then prints the year form); "now" is fixed as well
         when = {"mtime": case["mtime"], "epoch0": case["now"]}
-    rig = Rig(tree=SERVER_TREE if op in ("upload", "upload-seq") else None, spy=spy,
+    rig = Rig(tree=SERVER_TREE if op in ("upload", "upload-seq", "upload-again") else None, spy=spy,
               server_kwargs={"block_size": 7, "encoding": encoding}, **when)
     w = rig.world
     a = w.aioftp
@@ -217,6 +217,33 @@ def scenario(case):
                 for wd in ("/w", "/keep", "/"):
                     await client.change_directory(wd)
                     await client.upload("/local/src", dest, write_into=write_into, block_size=block)
+                await client.quit()
+        elif op == "upload-again":
+            # the same tree, changed (every file has new contents, every directory a new file), uploaded to the same
+            # destination a second time: what is there already is a tree like any other destination
+            def changed(t):
+                if not isinstance(t, dict):
+                    return t + b"!changed"
+                out_ = {k: changed(v) for k, v in t.items()}
+                out_["zz-new"] = b"NEW"
+                return out_
+            payload2 = changed(payload)
+            populate_client(client.path_io, "/local", {"src": payload})
+            populate_client(client.path_io, "/local2", {"src": payload2})
+            before = backends.tree_to_snapshot(SERVER_TREE)
+            destp = norm(cwd, dest)
+            target = destp if write_into else posixpath.join(destp, "src")
+            want = dict(before)
+            want.update(with_parents(flatten(payload2, target)))
+            want.pop("/", None)
+
+            async def main():
+                await client.connect("127.0.0.1", 2121)
+                await client.login()
+                if cwd != "/":
+                    await client.change_directory(cwd)
+                await client.upload("/local/src", dest, write_into=write_into, block_size=block)
+                await client.upload("/local2/src", dest, write_into=write_into, block_size=block)
                 await client.quit()
         elif op == "upload":
             populate_client(client.path_io, "/local", {"src": payload})
@@ -284,7 +311,7 @@ def scenario(case):
         except Exception as exc:
             problems.append({"kind": "exception", "exc": repr(exc)[:300]})
         if not problems:
-            if op in ("upload", "upload-seq"):
+            if op in ("upload", "upload-seq", "upload-again"):
                 got = rig.snapshot()
                 if got != want:
                     problems.append({"kind": "uploaded-tree", "missing": sorted(set(want) - set(got)),
@@ -461,6 +488,14 @@ def build_items(tier):
                 cases.append({"op": op, "kind": kind, "tree": tree, "dest": dest, "write_into": False, "cwd": "/",
                               "block": 8192, "fallback": fallback, "encoding": "latin-1",
                               "names": {"a": "é", "b": "å b"}})
+    # a second upload of the (changed) tree to the same destination
+    for kind, tree in sources:
+        if kind != "dir":
+            continue
+        for fallback in (False, True):
+            for dest, write_into in (("x", False), ("x", True), ("", False), ("x/y", True)):
+                cases.append({"op": "upload-again", "kind": kind, "tree": tree, "dest": dest, "write_into": write_into,
+                              "cwd": "/w", "block": 8192, "fallback": fallback})
     # names made of what the listing formats use as separators
     for kind, tree in sources:
         if kind != "dir" or count_nested(tree) > 3:
